@@ -241,23 +241,20 @@ EcatLine(r) ==
     [] OTHER -> Rej
 EConfigOk(r) == LET tc == TemplGeo(r) IN LegalConfig(tc) /\ ~TruncSingleRD(tc) /\ ~tc.ge /\ r.uNumTang >= 1 /\ r.uNumTang <= r.N - 1
 
-\* An unexplained line is attributed to a known finding only by its signature (known_findings.jsonl):
+\* An unexplained line is labelled with the signature of a finding recorded in known_findings.jsonl when it has
+\* exactly that signature (all three are fixed by now, so the runner reports them as violations - regressions):
 \* C14-unmarked-frame: the frame contains no time mark (the mark that ended the search for its start lies
 \*   at or after its end) and the implementation goes on reading events instead of saving an empty frame.
 \* C14-lmgrad-serial: the list-mode data term is identically zero although the projection-data one is not
-\*   (builds without OpenMP never add the per-thread image to the result).
-\* C14-lmadd-tof: TOF data with an additive term, data terms differ (the additive term of the last TOF bin
-\*   is used for every event).
-\* On exact instances the projection-data side must in addition be what TLC computes.
+\*   (and is what TLC computes, on exact instances).
 AllZero(q) == \A i \in 1..Len(q) : q[i] = 0
 Classify(r) ==
   IF run = 0 \/ TraceLog[run].e = "EConfig" THEN "new"
   ELSE IF TraceLog[run].e = "Config"
        THEN (IF m.pc = "read" /\ m.empty /\ r.e = "R" THEN "C14-unmarked-frame" ELSE "new")
        ELSE IF r.e = "Grad" /\ m.pc = "g-grad" /\ r.plusSens /\ Len(r.lm) = Len(r.pd) /\ r.subset \in 0..(XCfg.numSubsets - 1)
-                 /\ (XCfg.xm => SeqIs(r.pd, XExpected(r), XCfg.nvox))
-            THEN (IF AllZero(r.lm) /\ ~AllZero(r.pd) THEN "C14-lmgrad-serial"
-                  ELSE IF NumTof(P.c) > 1 /\ XCfg.hasAdd THEN "C14-lmadd-tof" ELSE "new")
+                 /\ (XCfg.xm => SeqIs(r.pd, XExpected(r), XCfg.nvox)) /\ AllZero(r.lm) /\ ~AllZero(r.pd)
+            THEN "C14-lmgrad-serial"
             ELSE "new"
 
 Idle == [pc |-> "idle"]
